@@ -138,7 +138,7 @@ func RunCheck(t *testing.T, prop string) {
 				run.Count("signals_for_other_property_"+f.Prop, 1)
 				continue
 			}
-			wit := map[string]any{"case": i, "scenario_seed": seed, "class": class, "scenario": sc.Describe(), "detail": f.Detail, "trace_tail": mon.Tail()}
+			wit := map[string]any{"case": i, "scenario_seed": seed, "class": class, "scenario": sc.Describe(), "detail": f.Detail, "trace_tail": f.Tail}
 			run.Violation(f.Sig, wit)
 		}
 	}
